@@ -7,6 +7,8 @@ from .c01 import logical_bodies, SETTERS
 
 WITNESSES = ["W04", "W03"]
 
+CRATES = (EY,)
+
 META = {
     "explanation": (
         "Static decision of the lock discipline that makes the RwLock the linearization device (MIR, sync and async flavours): R04.1 every public "
@@ -82,7 +84,7 @@ def r04_1(ctx):
         ctx.verdict(via, "R04.1", f, "one-critical-section", where,
                     "single exclusive acquisition `%s` (bb%d); the one state call `%s` (bb%d) goes through that guard" % (at["callee"].split("::")[-1], ablk, F.local_callee(main, stt).name, sblk),
                     "the state method is not called through the guard obtained by the acquisition")
-    ctx.floor("R04.1", n, 6 if ctx.config == "default" else 12)
+    ctx.floor("R04.1", n, 6 if not ctx.has_async else 12)
 
 
 def r04_2(ctx):
@@ -145,7 +147,7 @@ def r04_3(ctx):
         ctx.verdict(ok, "R04.3", f, "value+version-under-one-guard", where,
                     "one acquisition (bb%d) feeds both version() and the value read" % ablk,
                     "version() and the value are not both read through the single guard (helper calls: %s)" % [F.local_callee(main, t).name for t in other])
-    ctx.floor("R04.3", n, 2 if ctx.config == "default" else 4)
+    ctx.floor("R04.3", n, 2 if not ctx.has_async else 4)
 
 
 def r04_4(ctx):
@@ -162,4 +164,4 @@ def r04_4(ctx):
         first = f.raw["sig"]["inputs"][0] if f.raw["sig"]["inputs"] else ""
         ctx.verdict(first.startswith("&mut "), "R04.4", f, "setter-needs-&mut", f.loc(), "first parameter is `%s`" % first,
                     "`%s` takes `%s`: the unique Observable could be modified through a shared reference" % (f.path, first))
-    ctx.floor("R04.4", n, 6 if ctx.config == "default" else 12)
+    ctx.floor("R04.4", n, 6 if not ctx.has_async else 12)
